@@ -165,6 +165,10 @@ class ScriptRule(RuleBase):
         return script[-1] if self.model.duty_hold_last else None
 
 
+class Runaway(Exception):
+    """Raised by the harness's load callback when a run records far more instants than requested."""
+
+
 class Model:
     def __init__(self, spec, names=None):
         self.spec = spec
@@ -175,6 +179,7 @@ class Model:
             declare(self.elements[i], self.elements[i + 1], link)
         self.load_calls = []
         self.rule_calls = []
+        self.max_instants = 200000        # watchdog: the load callback aborts a runaway time loop
         self.duty_script = None
         self.duty_hold_last = True
         self.load = spec.get('load', ['const', 0.0])
@@ -183,6 +188,8 @@ class Model:
 
         def external_torque(time, angular_position, angular_speed):
             k = len(self.pt.time) - 1
+            if k > self.max_instants:
+                raise Runaway(f'more than {self.max_instants} instants recorded')
             self.load_calls.append((k, time, angular_position, angular_speed))
             v = load_value(self.load, k, si.q_si(time), si.q_si(angular_position),
                            si.q_si(angular_speed))
